@@ -15,6 +15,9 @@ Proved here (for event lists of any length):
 * `drop_add_drop_missed`, `add_drop_add_flagged` — without that hypothesis the statement is FALSE
   of the implementation: DROP t; CREATE t; DROP t of a pre-existing `t` is not reported at all
   (known finding), and CREATE; DROP; CREATE of a new table is reported;
+* `additive_statements_never_flagged`, `additive_file_clean` — the second half of the property: a statement
+  that drops nothing never gets DS102 / DS103 whatever else the file holds, and a file of any length whose
+  (merged) statements drop nothing is reported clean;
 * `mergeTemp_id` — files without a `new_`-prefixed single CREATE TABLE are analysed as written;
 * `rebuild_merged`, `rebuild_flags_omitted_column` — the four-statement rebuild is replaced by one
   ModifyTable that contains a DropColumn for every omitted column.
@@ -236,5 +239,42 @@ example : analyze [[.addTable tT []], [.dropTable tT []], [.dropTable ⟨0, 8⟩
 
 example : NoReAdd ([Ev.addTable tT [], Ev.other, Ev.dropTable tT []].map (classT tT)) := by
   simp [classT, NoReAdd, tT]
+
+/-! ### purely additive files -/
+
+/-- the statement drops nothing. -/
+def Additive (s : Stmt) : Prop := ∀ e ∈ s, match e with
+  | .dropTable _ _ => False
+  | .dropCol _ _ => False
+  | _ => True
+
+theorem stmtDiags_additive (all : List Ev) (s : Stmt) (h : Additive s) : stmtDiags all s = [] := by
+  unfold stmtDiags
+  simp only [List.append_eq_nil_iff, ite_eq_right_iff, reduceCtorEq, imp_false, Bool.not_eq_true, List.any_eq_false]
+  constructor <;> intro e he <;> have := h e he <;> cases e <;> simp_all
+
+/-- **additive_statements_never_flagged**: whatever else the file holds, a statement that drops nothing gets
+no DS102 / DS103. -/
+theorem additive_statements_never_flagged (ms : List Stmt) (i : Nat) (hi : i < ms.length) (h : Additive ms[i]) :
+    (analyzeMerged ms)[i]'(by simpa [analyzeMerged] using hi) = [] := by
+  simp [analyzeMerged, stmtDiags_additive _ _ h]
+
+/-- **additive_file_clean**: a file of any length whose statements drop nothing is reported clean. -/
+theorem additive_file_clean (stmts : List Stmt) (h : ∀ s ∈ mergeTemp stmts, Additive s) : analyze stmts = [] := by
+  unfold analyze
+  simp only [List.flatMap_eq_nil_iff]
+  intro p hp
+  have h2 : p.2 ∈ analyzeMerged (mergeTemp stmts) := (List.of_mem_zip hp).2
+  unfold analyzeMerged at h2
+  obtain ⟨s, hs, he⟩ := List.mem_map.mp h2
+  rw [← he, stmtDiags_additive _ s (h s hs)]
+  rfl
+
+/-- without rebuild candidates the hypothesis is about the statements as written. -/
+theorem additive_file_clean_plain (stmts : List Stmt) (hr : ∀ s ∈ stmts, startsRebuild s = false)
+    (h : ∀ s ∈ stmts, Additive s) : analyze stmts = [] :=
+  additive_file_clean stmts (by rw [mergeTemp_id stmts hr]; exact h)
+
+example : analyze [[.addTable ⟨0, 1⟩ [(1, false)]], [.addCol ⟨0, 1⟩ (2, false)], [.other]] = [] := by decide
 
 end Props.C18
